@@ -73,6 +73,8 @@ MIN_COUNTERS = {
               'snapshots_compared': 8000, 'values_compared': 80000,
               'random_leaf_runs': 400, 'infinite_expressions': 800,
               'ended_streams_polled_again': 4000, 'reset_streams_compared': 4000,
+              'inval_dependent_sequences_all': 300,
+              'inval_dependent_sequences_next': 150,
               'class_Placep': 300,
               'concurrent_seeded_streams_compared': 400,
               'concurrent_seeded_values_compared': 20000},
@@ -121,7 +123,66 @@ def detail(node):
     return ''
 
 
+CASE = {'inval': None, 'leaves': None}     # context of the running case
+
+PDROP_KEY = 'C13/sequence-differs/Pdrop/dropped-value-passed-on-as-input-value'
+PROUT_KEY = 'C13/sequence-differs/Prout/embedded-ignores-later-input-values'
+
+
+def inval_mechanism(node, exp, exp_ended, how, inval):
+    """Keys of the input-value mechanisms that explain a mismatch of node:
+    the expression is rebuilt with harness-side corrected Pdrop / Prout
+    embedding generators; if it then agrees with the model the mismatch is
+    that mechanism's.  Classification only."""
+    from vf import model_patterns as mp, c13_build as cb
+    names = {n[0] for n in mp.walk(node)}
+    cands = []
+    if 'Pdrop' in names:
+        cands.append(({'Pdrop'}, [PDROP_KEY]))
+    if names & {'Prout', 'ProutI'}:
+        cands.append(({'Prout'}, [PROUT_KEY]))
+    if len(cands) == 2:
+        cands.append(({'Pdrop', 'Prout'}, [PDROP_KEY, PROUT_KEY]))
+    for rep, keys in cands:
+        cb.REPAIR.clear()
+        cb.REPAIR.update(rep)
+        try:
+            with cb.time_limit(3):
+                pat = cb.build(node)
+                got, ended, exc = cb.real_take(pat, N, how, inval)
+            if compare(exp, exp_ended, got, ended, exc) is None:
+                return keys
+        except (cb.RealTimeout, Exception):
+            pass
+        finally:
+            cb.REPAIR.clear()
+    return None
+
+INVAL_NODES = ('PfuncnI', 'ProutI', 'PcollectI', 'PlazyI')
+
+
 def seq_key(bn, bk, ctx):
+    from vf import model_patterns as mp
+    inval = CASE['inval']
+    names = [n[0] for n in mp.walk(bn)]
+    if bn[0] == 'Pdrop' and bn[2] > 0 and any(n in INVAL_NODES for n in names):
+        # one mechanism, several symptoms (value, TypeError, hang)
+        return 'C13/sequence-differs/Pdrop/dropped-value-passed-on-as-input-value'
+    if inval is not None and inval.base is not None:
+        if inval.varies() and bn[0] != 'ProutI' and 'ProutI' in names:
+            # does a Prout of this expression, pulled through the embedding
+            # protocol, ignore the input values of the later pulls?
+            for sub in mp.walk(bn):
+                if sub[0] == 'ProutI' and len(sub[2]) >= 2:
+                    try:
+                        k, _, _, _ = check_node(sub, CASE['leaves'], 'embed', N, inval)
+                    except Exception:
+                        k = None
+                    if k:
+                        return ('C13/sequence-differs/Prout/'
+                                'embedded-ignores-later-input-values')
+        if inval.varies() and bn[0] == 'ProutI':
+            return 'C13/sequence-differs/Prout/embedded-ignores-later-input-values'
     if pslide_negative(bn):
         # one mechanism (no lower bound test), several symptoms
         return 'C13/sequence-differs/Pslide/nowrap-position-below-zero'
@@ -217,42 +278,45 @@ class Leaves:
         return runs[0]
 
 
-def check_node(node, leaves, how='iter', n=N):
+def check_node(node, leaves, how='iter', n=N, inval=None):
     """(mismatch kind or None, exp, got, exc) for one expression, standalone."""
     from vf import model_patterns as mp, c13_build as cb
-    exp, exp_ended = mp.take(node, n, fuel=20000 * max(1, n // N), leaves=leaves)
+    exp, exp_ended = mp.take(node, n, fuel=20000 * max(1, n // N), leaves=leaves,
+                             inval=inval)
     pat = cb.build(node)
     if how == 'all' and not exp_ended:
         how = 'iter'
-    got, got_ended, exc = cb.real_take(pat, n, how)
+    if inval is not None and getattr(inval, 'base', inval) is not None:
+        how = how if how in ('next', 'embed') else 'next'
+    got, got_ended, exc = cb.real_take(pat, n, how, inval)
     return compare(exp, exp_ended, got, got_ended, exc), exp, got, exc
 
 
 BLAME_N = 8 * N     # a sub-expression may differ only beyond the first 64 values
 
 
-def blame(node, leaves, limit=None):
+def blame(node, leaves, limit=None, inval=None, how='iter'):
     """Smallest sub-expression that mismatches on its own (post-order).  With
     a limit (seconds per node; only used outside any other time_limit) a node
     that does not deliver is blamed with mismatch kind 'hang'."""
     from vf import model_patterns as mp, c13_build as cb
     for sub in mp.subnodes(node):
-        b = blame(sub, leaves, limit)
+        b = blame(sub, leaves, limit, inval, how)
         if b is not None:
             return b
     try:
         if limit:
             try:
                 with cb.time_limit(limit):
-                    kind, exp, got, exc = check_node(node, leaves, n=BLAME_N)
+                    kind, exp, got, exc = check_node(node, leaves, how, BLAME_N, inval)
             except cb.RealTimeout:
                 exp, _ = mp.take(node, N, leaves=leaves)
                 return node, 'hang', exp, [], None
         else:
-            kind, exp, got, exc = check_node(node, leaves, n=BLAME_N)
+            kind, exp, got, exc = check_node(node, leaves, how, BLAME_N, inval)
     except (mp.OutOfFuel, mp.OutOfDomain, LeafBroken):
         try:
-            kind, exp, got, exc = check_node(node, leaves)
+            kind, exp, got, exc = check_node(node, leaves, how, N, inval)
         except (mp.OutOfFuel, mp.OutOfDomain, LeafBroken):
             return None
     if kind:
@@ -272,8 +336,12 @@ def run_shard(spec, acc):
         for attempt in range(12):
             rng = case_rng(spec['seed'], 'C13', 'expr', (i, attempt))
             kind, cand = gen.gen_expr(rng)
+            # the input value of every pull of this case (None for the
+            # drivers that cannot pass one)
+            inval = mp.Inval(rng.choice([None, None, 7, 2.5, {'k': 1}]),
+                             rng.choice([0, 0, 1, -2]))
             try:
-                exp, exp_ended = mp.take(cand, N, leaves=leaves)
+                exp, exp_ended = mp.take(cand, N, leaves=leaves, inval=inval)
             except mp.OutOfFuel:
                 acc.count('discarded_unproductive')
                 continue
@@ -295,6 +363,7 @@ def run_shard(spec, acc):
         if node is None:
             acc.count('cases_without_expression')
             continue
+        CASE['inval'], CASE['leaves'] = inval, leaves
         text = gen.show(node)
         classes = gen.classes(node)
         dep = gen.depth(node)
@@ -310,7 +379,9 @@ def run_shard(spec, acc):
         if len(exp) == 0:
             acc.count('empty_sequences')
 
-        how = rng.choice(['iter', 'next', 'embed', 'all'])
+        how = rng.choice(['iter', 'next', 'embed', 'all'] if inval.base is None
+                         else ['next', 'embed'] if inval.varies()
+                         else ['next', 'embed', 'all', 'all'])
         if how == 'all' and not exp_ended:
             how = 'next'
         acc.count('driver_' + how)
@@ -319,16 +390,19 @@ def run_shard(spec, acc):
             with cb.time_limit(10):
                 pat = cb.build(node)
                 snap0 = cb.snapshot(pat)
-                inval = rng.choice([None, None, 7, {'k': 1}]) \
-                    if how in ('next', 'embed', 'all') else None
-                if inval is not None:
+                if inval.base is not None:
                     acc.count('driven_with_non_None_inval')
+                    if inval.varies():
+                        acc.count('driven_with_inval_changing_per_pull')
+                    if any(n_[0] in ('PfuncnI', 'ProutI', 'PcollectI', 'PlazyI')
+                           for n_ in mp.walk(node)) and len(exp) >= 2:
+                        acc.count('inval_dependent_sequences_' + how)
                 got, got_ended, exc = cb.real_take(pat, N, how, inval)
                 kind_bad = compare(exp, exp_ended, got, got_ended, exc)
                 acc.count('sequences_compared')
                 acc.count('values_compared', len(exp))
                 if kind_bad:
-                    b = blame(node, leaves)
+                    b = blame(node, leaves, inval=inval, how=how)
                     if b is None:
                         # only this driver / only in context
                         bn, bk, bexp, bgot, bexc = node, kind_bad, exp, got, exc
@@ -337,19 +411,25 @@ def run_shard(spec, acc):
                         bn, bk, bexp, bgot, bexc = b
                         ctx = ''
                     key = seq_key(bn, bk, ctx)
-                    if bk in ('value', 'long', 'hang'):
+                    mech = inval_mechanism(node, exp, exp_ended, how, inval)
+                    if mech:
+                        for extra in mech[1:]:
+                            acc.violation(extra, {'case': i, 'expression': text,
+                                                  'input_values': repr(inval)})
+                        key = mech[0]
+                    elif bk in ('value', 'long', 'hang'):
                         rc = _resumer_inside(bn, leaves)
                         if rc:
                             key = f'C13/stream-resumes-after-end/{rc}'
                     w = {'case': i, 'expression': text, 'blamed': gen.show(bn),
                          'mismatch': bk, 'model': bexp[:24], 'library': bgot[:24],
-                         'driver': how}
+                         'driver': how, 'input_values': repr(inval)}
                     if bexc is not None:
                         w['tb'] = short_tb(bexc)
                         w['sites'] = tb_sites(bexc)[-3:]
                     acc.violation(key, w)
                 # -- independence of streams --------------------------------
-                (o1, o2), (d1, d2), iexc = cb.interleaved(pat, N, rng)
+                (o1, o2), (d1, d2), iexc = cb.interleaved(pat, N, rng, inval)
                 acc.count('interleaved_pairs_compared')
                 if exc is None:
                     bad = None
@@ -363,7 +443,14 @@ def run_shard(spec, acc):
                             if k2:
                                 bad = k2
                                 break
-                    if bad:
+                    if bad and inval.varies() and any(
+                            n_[0] == 'ProutI' for n_ in mp.walk(node)):
+                        acc.violation('C13/sequence-differs/Prout/'
+                                      'embedded-ignores-later-input-values',
+                                      {'case': i, 'expression': text,
+                                       'input_values': repr(inval), 'driver': how,
+                                       'via_' + how: got[:16], 'via_stream': o1[:16]})
+                    elif bad:
                         culprit = _indep_blame(node, rng)
                         acc.violation(
                             f"C13/streams-not-independent/{culprit or node[0]}/{bad}",
@@ -375,7 +462,7 @@ def run_shard(spec, acc):
                 if exc is None and exp_ended and not kind_bad:
                     k_more = rng.randint(1, 3)
                     first, post, second, aexc = cb.after_end(
-                        pat, N + 2, k_more, midway=rng.randint(1, 5))
+                        pat, N + 2, k_more, midway=rng.randint(1, 5), inval=inval)
                     acc.count('ended_streams_polled_again')
                     if aexc is not None:
                         acc.violation(
@@ -422,6 +509,14 @@ def run_shard(spec, acc):
                                            'not return within 10 s'})
                 else:
                     acc.count('after_end_poll_unproductive_operand')
+                continue
+            mech = inval_mechanism(node, exp, exp_ended, how, inval) \
+                if stage == 'fresh' else None
+            if mech:
+                for key in mech:
+                    acc.violation(key, {'case': i, 'expression': text,
+                                        'input_values': repr(inval),
+                                        'note': 'driver did not return in 10 s'})
                 continue
             b = blame(node, leaves, limit=3)
             if b is not None:
@@ -678,9 +773,11 @@ def run_threads(spec, acc):
                     bad = compare(exp, ended, before[k][:len(exp)] if not ended
                                   else before[k], ended, None)
                     if bad:
-                        b = blame(cand, leaves)     # the main monitor's key
-                        key = seq_key(b[0], b[1], '') if b else \
-                            'C13/seeded-stream-differs/model-' + bad
+                        CASE['inval'], CASE['leaves'] = None, leaves
+                        mech = inval_mechanism(cand, exp, ended, 'next', None)
+                        b = None if mech else blame(cand, leaves)
+                        key = mech[0] if mech else seq_key(b[0], b[1], '') if b \
+                            else 'C13/seeded-stream-differs/model-' + bad
                         acc.violation(key, dict(w, model=exp[:16]))
             # the main time thread must be current again
             if mainmod.main.current_tt is not mainmod.main.main_tt:
